@@ -743,7 +743,7 @@ fn c19_strategy() -> impl Strategy<Value = C19Case> {
         .prop_map(|(tls, initial_key, chain, with_b, start, ops, b_delay, ctor_timeline)| C19Case { tls, initial_key, chain, with_b, b_delay, ctor_timeline, start, ops })
 }
 
-const C19_LABELS: [&str; 16] = ["key_change_mid_flight", "chain_fired", "end_without_chain_entry", "other_animator_ended", "key_set_in_gap_after_end", "same_key_reassigned", "key_without_timeline", "has_chain", "two_component_types", "chain_first_order_consistent", "select_first_order_consistent", "ended_reached", "animator_disabled", "animator_constructed_with_a_timeline", "chain_made_with_reset_after", "hot_swap_under_a_selector"];
+const C19_LABELS: [&str; 17] = ["key_change_mid_flight", "chain_fired", "end_without_chain_entry", "other_animator_ended", "key_set_in_gap_after_end", "same_key_reassigned", "key_without_timeline", "has_chain", "two_component_types", "chain_first_order_consistent", "select_first_order_consistent", "ended_reached", "animator_disabled", "animator_constructed_with_a_timeline", "chain_made_with_reset_after", "hot_swap_under_a_selector", "second_component_selected_by_the_same_key_type"];
 
 /// One hypothesis about the (unspecified but fixed) relative order of chain_animations / select_animation.
 struct Hyp {
@@ -761,6 +761,11 @@ fn c19_judge(c: &C19Case, obs: &mut Obs) -> Result<(), String> {
         app.add_plugins(AnimationPlugin::<B>::new());
     }
     app.register_animation_key::<A, K>();
+    // the same key type may govern a second component type, through a selector of its own
+    let b_selected = c.with_b.is_some() && c.b_delay % 4 == 3;
+    if b_selected {
+        app.register_animation_key::<B, K>();
+    }
     app.insert_resource(Time::default());
     let start = A::from_vals(&c.start);
     let mut sb = AnimationSelectorBuilder::<K, A>::new().initial_key(KEYS[c.initial_key as usize % 4]);
@@ -815,7 +820,16 @@ fn c19_judge(c: &C19Case, obs: &mut Obs) -> Result<(), String> {
     }
     if let Some(units) = c.with_b {
         let btl = TimelineBuilder::build(B::timeline().duration_seconds(units as f32 / 8.0).delay_seconds(c.b_delay as f32 / 8.0).keyframe(B::keyframe(0.0).v(0.0)).keyframe(B::keyframe(1.0).v(1.0)));
-        ec.insert((B { v: 0.0 }, Animator::<B>::with_timeline(btl)));
+        if b_selected {
+            let mut bsel = AnimationSelectorBuilder::<K, B>::new().initial_key(KEYS[0]);
+            for k in KEYS {
+                bsel = bsel.add(k, btl.clone());
+            }
+            ec.insert((B { v: 0.0 }, Animator::<B>::new(), bsel.build()));
+            obs.label(16);
+        } else {
+            ec.insert((B { v: 0.0 }, Animator::<B>::with_timeline(btl)));
+        }
         obs.label(8);
     }
     let entity = ec.id();
@@ -866,6 +880,9 @@ fn c19_judge(c: &C19Case, obs: &mut Obs) -> Result<(), String> {
                 let (st1, pos1, _) = w.animator_a();
                 let comp1 = w.comp();
                 let b1 = c.with_b.map(|_| w.app.world.get::<Animator<B>>(entity).unwrap().state());
+                if b_selected && b1 == Some(AnimationState::None) {
+                    return Err(format!("op {n}: the second component type is governed by a selector of the same key type (registered with register_animation_key::<B, K>) whose current key has a timeline, but its animator is still in state None after a frame"));
+                }
                 let key1 = KEYS.iter().position(|k| *k == w.app.world.get::<AnimationSelector<K, A>>(entity).unwrap().timeline_key).unwrap() as u8;
                 let mut any_alive = false;
                 let mut key_after_model = key;
